@@ -125,7 +125,8 @@ func simC13v4(c *sim.Ctx) {
 	for di := 0; di < ndg; di++ {
 		dg := &datagram{key: c.Draw(nkeys)}
 		n := 0
-		switch c.Weighted(4, 4, 2, 1) {
+		szClass := c.Weighted(8, 8, 4, 2, 1)
+		switch szClass {
 		case 0:
 			n = 9 + c.Draw(64)
 		case 1:
@@ -138,6 +139,11 @@ func simC13v4(c *sim.Ctx) {
 		dg.ihl = 5
 		if c.Chance(350) {
 			dg.ihl = 6 + c.Draw(10)
+		}
+		if szClass == 4 {
+			// the largest datagrams there are: header + payload = 65535 down to 65520
+			n = 65535 - dg.ihl*4 - c.Draw(16)
+			c.Fault("maximal_datagram")
 		}
 		if dg.ihl*4+n > 65535 {
 			n = 65535 - dg.ihl*4
@@ -236,6 +242,42 @@ func simC13v4(c *sim.Ctx) {
 				add(t-int64(c.Draw(len(frags)*2+1))*10_000+5, h)
 			}
 		}
+	}
+	if hostileRun && c.Chance(300) {
+		// a complete, hole-free set whose payload alone still fits 16 bits but
+		// which, with its header, does not: every fragment but the last is
+		// unobjectionable, the last one must be refused
+		ihl := 5
+		if c.Chance(400) {
+			ihl = 6 + c.Draw(10)
+		}
+		n := 65535 - ihl*4 + 1 + c.Draw(ihl*4)
+		key := c.Draw(nkeys)
+		body := fill(uint64(c.Tape.Used())*13+5, n)
+		var cuts []int
+		for i := c.Draw(4); i > 0; i-- {
+			cuts = append(cuts, 8*(1+c.Draw(n/8)))
+		}
+		sort.Ints(cuts)
+		prev := 0
+		t += 400_000
+		for _, cu := range append(cuts, n) {
+			if cu <= prev {
+				continue
+			}
+			h := &frag{key: key, dg: -1, off: prev, payload: body[prev:cu], more: cu < n, ihl: ihl, opts: mkOpts(c, ihl), hostile: "part-of-oversize-total"}
+			if cu == n {
+				h.hostile = "oversize"
+			}
+			at := t
+			t += 10_000
+			if c.Chance(reorderPm) && cu < n {
+				at += int64(c.Draw(8)) * 10_000
+			}
+			add(at, h)
+			prev = cu
+		}
+		c.Fault("hostile_oversize_total")
 	}
 	// discard timers
 	for i := c.Weighted(3, 2, 1); i > 0; i-- {
@@ -412,6 +454,9 @@ func checkOut4(c *sim.Ctx, out *layers.IPv4, in *inst, dgs []*datagram, completi
 			c.Fail("safety", "byte-from-nowhere", "DefragIPv4", "returned payload byte %d (%#x) was placed at that offset by no received fragment (%d fragments, mixed=%v)", o, b, len(in.recv), in.mixed)
 		}
 	}
+	if int(out.IHL)*4+len(out.Payload) > 65535 {
+		c.Fail("safety", "oversize-datagram-returned", "DefragIPv4", "returned datagram has a %d-byte header and %d bytes of payload: more than an IPv4 datagram can be (Length field says %d)", int(out.IHL)*4, len(out.Payload), out.Length)
+	}
 	if out.Flags&layers.IPv4MoreFragments != 0 || out.FragOffset != 0 {
 		c.Fail("reassembly", "frag-fields-set", "DefragIPv4", "returned datagram has flags %v offset %d", out.Flags, out.FragOffset)
 	}
@@ -544,6 +589,9 @@ func simC13v6(c *sim.Ctx) {
 		}
 		if out.NextHeader != layers.IPProtocolUDP {
 			c.Fail("ipv6", "next-header", "DefragIPv6", "next header %v", out.NextHeader)
+		}
+		if out.Version != 6 || out.TrafficClass != 2 || out.FlowLabel != 5 || out.HopLimit != 9 || !out.SrcIP.Equal(ip.SrcIP) || !out.DstIP.Equal(ip.DstIP) {
+			c.Fail("ipv6", "header-changed", "DefragIPv6", "id %d: rebuilt datagram carries version %d class %d label %d hop limit %d %v->%v, the fragments had 6/2/5/9 %v->%v", f.id, out.Version, out.TrafficClass, out.FlowLabel, out.HopLimit, out.SrcIP, out.DstIP, ip.SrcIP, ip.DstIP)
 		}
 		done[f.id] = true
 		c.Probe("ipv6_reassembled")
